@@ -41,9 +41,14 @@
 (*          length <= 1 and boundary pairs) and boundary strings of 3..5   *)
 (*          bytes, then the same bytes again as a heap atom (concat of nil *)
 (*          and the node), so that both representations are read           *)
-(*   gc     maybe_restore with the real thresholds 1024 / 48: the big      *)
-(*          atoms are REAL byte strings here (48, 49 and 1100 bytes of     *)
-(*          0xaa) - TLC copes because the universe is tiny                 *)
+(*   gc     maybe_restore with the real thresholds 1024 / 48 (replayable): *)
+(*          the big atoms are REAL byte strings here (48, 49 and 1100      *)
+(*          bytes of 0xaa) - TLC copes because the universe is tiny.  The  *)
+(*          first two calls are forced (an old 1100-byte heap atom, then   *)
+(*          the transparent checkpoint); then every choice of kept value   *)
+(*          (old atom, nil, substring of old bytes incl. empty ones, new   *)
+(*          small / 48 / 49 / 1100-byte atom, substring of new bytes, pair)*)
+(*          x garbage x maybe_restore / transparent restore                *)
 (*   sim    (TLC -simulate) long random histories over the union, with     *)
 (*          small caps (12 atoms, 6 pairs, 40 bytes)                       *)
 (* In the thorough tier all behaviours are still model-checked but only a  *)
@@ -99,7 +104,8 @@ U0 == [ atoms |-> NoSet, smalls |-> NoSet, nums |-> NoSet, mnums |-> NoSet, u64s
         pairWin |-> 0, subWin |-> 0, subMode |-> "edge", subPair |-> FALSE,
         catWin |-> 0, catMax |-> 0, catBad |-> FALSE,
         maxCps |-> 0, cpKinds |-> NoSet, thr |-> NoSet, mrWin |-> 0,
-        gAdd |-> NoSet, gRem |-> NoSet ]
+        gAdd |-> NoSet, gRem |-> NoSet,
+        subAlso |-> NoSet, mrAlso |-> NoSet ]        \* node ids always offered as substr source / maybe_restore node
 
 Depth ==
   CASE Profile = "core"  -> IF Thorough THEN 4 ELSE 3
@@ -107,7 +113,7 @@ Depth ==
     [] Profile = "caps"  -> IF Thorough THEN 4 ELSE 3
     [] Profile = "ints"  -> 2
     [] Profile = "bytes" -> 2
-    [] Profile = "gc"    -> IF Thorough THEN 5 ELSE 4
+    [] Profile = "gc"    -> IF Thorough THEN 6 ELSE 5
     [] Profile = "sim"   -> SimDepth
 
 U(d) ==      \* d = number of calls already made
@@ -136,9 +142,10 @@ U(d) ==      \* d = number of calls already made
                          !.smalls = {0, 1, 127, 128, 32767, 32768, 8388607, 8388608, 67108863}]
          ELSE [U0 EXCEPT !.nums = IntSecond, !.i64s = {ZI(-128), ZI(128)}, !.atoms = AtomSecond]
     [] Profile = "bytes" -> [U0 EXCEPT !.atoms = ByteUniverse(0)]        \* step 2 is forced, see MCNext
-    [] Profile = "gc" ->
-         [U0 EXCEPT !.atoms = {B48, B49, B1100}, !.pairWin = 1, !.subWin = 2, !.subMode = "gc",
-                    !.maxCps = 1, !.cpKinds = {"tcheckpoint"}, !.thr = {<< MinSavings, CloneAtomLimit >>}, !.mrWin = 3]
+    [] Profile = "gc" ->      \* steps 1, 2 are forced (an old 1100-byte heap atom = node 3, then the transparent checkpoint)
+         [U0 EXCEPT !.atoms = {B48, B49, B1100, << 5 >>}, !.pairWin = 1, !.subWin = 2, !.subMode = "gc", !.subAlso = {3},
+                    !.maxCps = 1, !.cpKinds = {"tcheckpoint"}, !.thr = {<< MinSavings, CloneAtomLimit >>},
+                    !.mrWin = 3, !.mrAlso = {1, 3}]
     [] Profile = "sim" ->
          [U0 EXCEPT !.atoms = CoreAtomsT, !.smalls = {0, 127, 128, 67108863}, !.nums = IntSecond, !.mnums = {ZI(-129)},
                     !.u64s = {ZI(255)}, !.i64s = {ZI(-128)},
@@ -162,7 +169,7 @@ Ranges(L, mode) ==
   LET cand == CASE mode = "edge" -> { << 0, L >>, << 0, 0 >>, << 1, L >>, << 0, L - 1 >>, << 1, 2 >>, << L, L >>,
                                        << L + 1, L + 1 >>, << 0, L + 1 >>, << 2, 1 >> }
                 [] mode = "few"  -> { << 0, L >>, << 1, L >>, << 0, L - 1 >>, << 0, L + 1 >> }
-                [] mode = "gc"   -> { << 0, 48 >>, << 1, 50 >>, << L - 1, L >> }
+                [] mode = "gc"   -> { << 0, 48 >>, << 1, 50 >>, << L - 1, L >>, << 0, 0 >>, << L, L >> }
   IN  { rg \in cand : rg[1] >= 0 /\ rg[2] >= 0 }
 
 \* node lists for new_concat: the empty list, every single atom, every ordered pair (triple) of the window
@@ -199,7 +206,7 @@ General(u) ==
   \/ \E z \in u.u64s   : Step(IntOp("new_u64", z))
   \/ \E z \in u.i64s   : Step(IntOp("new_i64", z))
   \/ \E f \in TopK(LiveH, u.pairWin), r \in TopK(LiveH, u.pairWin) : Step([op |-> "new_pair", f |-> f, r |-> r])
-  \/ \E n \in TopK(LiveAtomH, u.subWin) : \E rg \in Ranges(LenOf(n), u.subMode) :
+  \/ \E n \in TopK(LiveAtomH, u.subWin) \cup (u.subAlso \cap LiveAtomH) : \E rg \in Ranges(LenOf(n), u.subMode) :
         Step([op |-> "new_substr", n |-> n, s |-> rg[1], e |-> rg[2]])
   \/ /\ u.subPair
      /\ \E n \in TopK(LivePairH, 1) : Step([op |-> "new_substr", n |-> n, s |-> 0, e |-> 0])
@@ -211,7 +218,7 @@ General(u) ==
      /\ \E kind \in u.cpKinds : Step([op |-> kind])
   \/ /\ u.maxCps > 0
      /\ \E i \in 1..Len(cps) : Step([op |-> "restore", cp |-> i]) \/ Step([op |-> "trestore", cp |-> i])
-  \/ \E i \in 1..Len(cps), n \in TopK(LiveH, u.mrWin), t \in u.thr :
+  \/ \E i \in 1..Len(cps), n \in TopK(LiveH, u.mrWin) \cup (u.mrAlso \cap LiveH), t \in u.thr :
         Step([op |-> "maybe_restore", cp |-> i, n |-> n, out |-> "", ms |-> t[1], cl |-> t[2]])
   \/ \E k \in u.gAdd : Step([op |-> "add_ghost_atom", amt |-> k]) \/ Step([op |-> "add_ghost_pair", amt |-> k])
   \/ \E k \in u.gRem : Step([op |-> "remove_ghost_pair", amt |-> k])
@@ -220,7 +227,9 @@ MCInit == MInit /\ Init /\ hist = << >>
 
 MCNext ==
   /\ Len(hist) < Depth
-  /\ IF Profile = "bytes" /\ Len(hist) = 1
+  /\ IF Profile = "gc" /\ Len(hist) = 0 THEN Step([op |-> "new_atom", b |-> B1100])
+     ELSE IF Profile = "gc" /\ Len(hist) = 1 THEN Step([op |-> "tcheckpoint"])
+     ELSE IF Profile = "bytes" /\ Len(hist) = 1
      THEN \* the same bytes once more, as a heap atom: concat(nil, node 3)
           Step([op |-> "new_concat", size |-> LenOf(3), ns |-> << 1, 3 >>])
      ELSE General(U(Len(hist)))
